@@ -26,6 +26,9 @@ func (x *FnIndex) countedFromZero(cell *ssa.Alloc) (bound ssa.Value, ok bool) {
 }
 
 func runC13(c *Ctx) {
+	// the pool's DAG method hands the model's error to its caller ("the call returns an error")
+	c.armPoolError("G4-pool-reports-the-error", func(m string) bool { return m == "ExecuteDAGModel" }, 1)
+
 	fn := c.MustFn("G1-layer-barrier", "engine", "Gengine", "ExecuteDAGModel")
 	if fn == nil {
 		return
